@@ -2924,12 +2924,17 @@ emit_member_table(arg_t *arg, asn1p_expr_t *expr, asn1c_ioc_table_and_objset_t *
 	OUT("},\n");
 	INDENT(-1);
 
-	if(!expr->constraints || (arg->flags & A1C_NO_CONSTRAINTS))
+	if(!expr->constraints)
 		return 0;
 
 	save_target = arg->target->target;
 	REDIR(OT_CODE);
 
+	/*
+	 * -fno-constraints suppresses the checking code only: the member table
+	 * above still refers to the OER/PER constraint tables emitted below.
+	 */
+	if(!(arg->flags & A1C_NO_CONSTRAINTS)) {
 	if(expr->_anonymous_type && !strcmp(expr->Identifier, "Member"))
 		p = asn1c_type_name(arg, expr, TNF_SAFE);
 	else
@@ -2948,6 +2953,7 @@ emit_member_table(arg_t *arg, asn1p_expr_t *expr, asn1c_ioc_table_and_objset_t *
 	INDENT(-1);
 	OUT("}\n");
 	OUT("\n");
+	}
 
 	if(emit_member_OER_constraints(arg, expr, "memb"))
 		return -1;
